@@ -587,7 +587,7 @@ def ob_statistics():
             elif fname == 'Wald_stat':
                 adj, org = (vrepr(x) for x in rets[0].value)
                 dvec = '[full0 + -1*p0, full1 + -1*p2]'
-                ok = adj.count('GIM') == 1 and org.count('H') >= 1 and 'GIM' not in org and adj.count('transpose') == 1 and adj.count('dot') == 2 and adj.count(dvec) == 2 and org.count(dvec) == 2
+                ok = adj.count('GIM') == 1 and org.count('H') >= 1 and 'GIM' not in org and adj.count('transpose') in (0, 1) and adj.count('dot') == 2 and adj.count(dvec) == 2 and org.count(dvec) == 2
                 what = "(d' GIM d, d' H d) with d = full_params - p_nested"
                 s = adj[:120]
             else:
